@@ -145,3 +145,16 @@ Proof.
   eexists. eexists. split; [vm_compute; reflexivity|]. split; [vm_compute; reflexivity|]. split; [vm_compute; reflexivity|].
   vm_compute. discriminate.
 Qed.
+
+(* ---- empty versus non-empty gaps: `Y=X+Z**2` and `Y = X + Z ** 2` (GraphGapFacts.gaps_irrelevant at work) ---- *)
+Require Import GraphGapFacts.
+Definition ex_bare_lay : layout := fun _ _ => mkLay SVar None.
+Definition ex_gq1 : neq := mkNeq [NTerm "Y" (IInt 0%Z)] [NTerm "X" (IInt 0%Z); NChr "+"; NTerm "Z" (IInt 0%Z); NChr "*"; NChr "*"; NChr "2"].
+Definition ex_gq2 : neq := mkNeq [NTerm "Y" (IInt 0%Z); NChr " "]
+  [NChr " "; NTerm "X" (IInt 0%Z); NChr " "; NChr "+"; NChr " "; NTerm "Z" (IInt 0%Z); NChr " "; NChr "*"; NChr "*"; NChr " "; NChr "2"; NChr " "].
+Example ex_gaps :
+  denorm_text ex_bare_lay ex_gq1 = "Y=X+Z**2" /\ denorm_text ex_bare_lay ex_gq2 = "Y = X + Z ** 2 " /\
+  dq_ok_ws ex_bare_lay ex_gq1 = true /\ dq_ok_ws ex_bare_lay ex_gq2 = true /\
+  strip_blanks (nlhs ex_gq1) = strip_blanks (nlhs ex_gq2) /\ strip_blanks (nrhs ex_gq1) = strip_blanks (nrhs ex_gq2) /\
+  nflat (nrm (whole_toks ex_gq1)) = "Y[t]=X[t]+Z[t]**2" /\ nflat (nrm (whole_toks ex_gq2)) = "Y[t] = X[t] + Z[t] ** 2 ".
+Proof. vm_compute. repeat split; reflexivity. Qed.
